@@ -7,7 +7,7 @@ RULE = ("Hypothesis-generated command histories (batches of 0-4 assignments with
         "resources, suspensions legal or not, idle ticks, bad commands) interpreted against a real Executor and an "
         "independent ledger model in lock-step; after every tick: free + allocated(active+suspending) == capacity per "
         "pool from the implementation's own figures, free figures equal the model's (allocation returned exactly once, "
-        "in the tick of completion / kill / end of suspension), overselling batches raise and leave the pool untouched; the same conservation monitor runs over every tick of generated full simulations under all shipped schedulers and a custom tape scheduler. "
+        "in the tick of completion / kill / end of suspension), overselling batches raise and leave the pool untouched, and after one more empty call following any refused round every pool still accounts for its whole capacity; the same conservation monitor runs over every tick of generated full simulations under all shipped schedulers and a custom tape scheduler. "
         "Non-trivial = episode with >= 1 OOM failure, >= 1 finished suspension and >= 1 batch of >= 2 containers; "
         "distinct = sha1 of the case JSON")
 ASSUMPTIONS = [
